@@ -383,7 +383,9 @@ pub fn run(ctx: &Ctx, rep: &mut Report) {
                 u.skip_events();
                 let m = MMessage { source_chain: b"eth".to_vec(), message_id: b"id-1".to_vec(), source_address: b"0xsrc".to_vec(), contract: sc_addr(&caller), payload_hash: rng.bytes32() };
                 let mp = MMessage { contract: sc_addr(&proxy), message_id: b"id-2".to_vec(), ..m.clone() };
-                if !g.approve_honest(&mut u, &ring, &[m.clone(), mp.clone()]) {
+                // a message for the account nobody can sign for
+                let mz = MMessage { contract: ZERO_ACCOUNT.clone(), message_id: b"id-3".to_vec(), ..m.clone() };
+                if !g.approve_honest(&mut u, &ring, &[m.clone(), mp.clone(), mz.clone()]) {
                     rep.foreign("honest-approval-refused");
                     continue;
                 }
@@ -422,6 +424,19 @@ pub fn run(ctx: &Ctx, rep: &mut Report) {
                 }
                 for ep in &eps {
                     matrix(rep, &mut u, ep, &stranger, "approved");
+                }
+                {
+                    let zero = addr_of(&u.env, &ZERO_ACCOUNT);
+                    let e = u.env.clone();
+                    let cc: SVec<Val> = (zero.clone(), sstr(&e, b"dest"), sstr(&e, b"0xd"), sbytes(&e, b"payload-1")).into_val(&e);
+                    let call_as_zero = arg_variants(&e, &g.addr, "call_contract", cc, vec![(3, sbytes(&e, b"payload-1").into_val(&e))]).remove(0);
+                    let zero_eps = vec![
+                        Ep { valid: false, name: "gateway.validate_message", named: zero.clone(), counterparty: Some(operator.clone()), owner: Some(owner.clone()), call: mk_val(mz.clone()), other_args: vec![] },
+                        Ep { valid: false, name: "gateway.call_contract", named: zero.clone(), counterparty: Some(operator.clone()), owner: Some(owner.clone()), call: call_as_zero, other_args: vec![] },
+                    ];
+                    for ep in &zero_eps {
+                        matrix(rep, &mut u, ep, &stranger, "named-address-is-the-all-zero-account");
+                    }
                 }
                 proxy_variant(rep, &mut u, "gateway.call_contract", &proxy, &g.addr, "call_contract", &|env, n| (n.clone(), sstr(env, b"dest"), sstr(env, b"0xd"), sbytes(env, b"p")).into_val(env), &caller);
                 // validate_message through the proxy: naming the proxy consumes the proxy's message; naming
